@@ -108,6 +108,8 @@ func main() {
 		os.Exit(cmdList())
 	case "audit":
 		os.Exit(cmdAudit())
+	case "conform":
+		os.Exit(cmdConform(pos))
 	case "validate":
 		os.Exit(cmdValidate(pos))
 	case "replay":
